@@ -1,6 +1,7 @@
 package props
 
 import (
+	"encoding/hex"
 	"math/rand"
 	"os/exec"
 	"strings"
@@ -565,5 +566,163 @@ func TestC09MapKeyObjectIdentity(t *testing.T) {
 	obs = w2.Exec(h)
 	if !strings.Contains(obs[0].Out, "z.V") {
 		t.Fatalf("a World sharing the table did not use the same object: %v", obs)
+	}
+}
+
+// Stream spellings: generation is reproducible, executes nothing, and the children's job lists
+// are the stream's jobs in other orders.
+func TestC09SpellSetsArePure(t *testing.T) {
+	defer func(f func(hist.History) []hist.Obs) { c09Exec = f }(c09Exec)
+	c09Exec = func(h hist.History) []hist.Obs {
+		t.Fatal("the generator of the spellings stream executed a history")
+		return nil
+	}
+	a, b := C09SpellSets(77, "quick"), C09SpellSets(77, "quick/fresh=2")
+	if len(a) != 120 || len(b) != len(a) {
+		t.Fatalf("%d and %d job sets", len(a), len(b))
+	}
+	njobs := 0
+	variants := map[string]bool{}
+	for i := range a {
+		if a[i].Hist.Sexp() != b[i].Hist.Sexp() {
+			t.Fatalf("set %d differs between two generations", i)
+		}
+		files, _ := C09Jobs(a[i].Hist)
+		if len(files) < 2 || len(files) > 6 {
+			t.Fatalf("set %d has %d files", i, len(files))
+		}
+		njobs += len(files)
+		for _, tg := range a[i].Tags {
+			if strings.HasPrefix(tg, "spelling=") {
+				variants[tg] = true
+			}
+		}
+	}
+	if len(variants) != len(c09SpellVariants) {
+		t.Errorf("only %d of %d spelling variants generated", len(variants), len(c09SpellVariants))
+	}
+	all := (c09{}).ChildCases("quick/fresh=1", 77)
+	rev := (c09{}).ChildCases("quick/fresh=0", 77)
+	half := (c09{}).ChildCases("quick/fresh=2", 77)
+	if len(all) != njobs || len(rev) != njobs || len(half) != (njobs+1)/2 {
+		t.Fatalf("children build %d, %d, %d of %d jobs", len(all), len(rev), len(half), njobs)
+	}
+	key := func(c *Case) string { return c.Meta["xkey"].(string) }
+	if key(rev[0]) != c09SpellKey(119, len(mustFiles(a[119]))-1) || key(rev[njobs-1]) != "s0.0" {
+		t.Errorf("child 0 does not build the jobs in reverse order: first %s, last %s", key(rev[0]), key(rev[njobs-1]))
+	}
+	seen := map[string]bool{}
+	same := 0
+	for i, c := range all {
+		if seen[key(c)] || c.Meta["xtext"] != true {
+			t.Fatalf("bad child case %s", key(c))
+		}
+		seen[key(c)] = true
+		if key(c) == key(rev[njobs-1-i]) {
+			same++
+		}
+	}
+	if same > njobs/4 {
+		t.Errorf("child 1 builds %d of %d jobs at the place of the generation order", same, njobs)
+	}
+}
+
+func mustFiles(c *Case) []int { f, _ := C09Jobs(c.Hist); return f }
+
+// The fresh-process decision on hand-made results, and the parsing of a child's output.
+func TestC09FreshAgreeHandMade(t *testing.T) {
+	mine := map[string]string{"s0.0": "write(a)\n", "s0.1": "write(import alpha \"x/alpha/\")\n"}
+	keys := []string{"s0.0", "s0.1"}
+	same := &C09FreshRun{K: 0, Order: []string{"s0.1", "s0.0"}, Jobs: map[string]C09FreshJob{"s0.0": {Text: "write(a)\n", Pos: 1}, "s0.1": {Text: mine["s0.1"], Pos: 0}}}
+	halfRun := &C09FreshRun{K: 2, Order: []string{"s0.0"}, Jobs: map[string]C09FreshJob{"s0.0": {Text: "write(a)\n", Pos: 0}}}
+	if d := C09FreshAgree(keys, mine, []*C09FreshRun{same, halfRun}); d != "" {
+		t.Fatalf("agreeing fresh processes rejected: %s", d)
+	}
+	// the File was named after whatever the process had built first
+	leak := &C09FreshRun{K: 1, Order: []string{"s3.2", "s0.1"}, Jobs: map[string]C09FreshJob{"s0.1": {Text: "write(import beta \"x/alpha/\")\n", Pos: 1}}}
+	d := C09FreshAgree(keys, mine, []*C09FreshRun{same, leak})
+	if !strings.Contains(d, "s0.1") || !strings.Contains(d, "fresh process #1") || !strings.Contains(d, "after s3.2") || !strings.Contains(d, "import beta") || !strings.Contains(d, "import alpha") {
+		t.Fatalf("leak not reported with both outputs: %q", d)
+	}
+	first := &C09FreshRun{K: 0, Order: []string{"s0.0"}, Jobs: map[string]C09FreshJob{"s0.0": {Text: "write(b)\n", Pos: 0}}}
+	if d := C09FreshAgree(keys, mine, []*C09FreshRun{first}); !strings.Contains(d, "FIRST File") {
+		t.Fatalf("difference of a first File not reported: %q", d)
+	}
+	out := "s0.1 h1 d1 " + hex.EncodeToString([]byte("write(x)\n")) + "\nnoise\ns0.0 h0 d0 " + hex.EncodeToString([]byte("write(y)\n")) + "\nend\n"
+	jobs, order, err := c09ParseFresh(out)
+	if err != nil || len(jobs) != 2 || order[0] != "s0.1" || jobs["s0.0"].Text != "write(y)\n" || jobs["s0.0"].Pos != 1 || jobs["s0.1"].HistSum != "h1" {
+		t.Fatalf("parsed %v %v %v", jobs, order, err)
+	}
+	if _, _, err := c09ParseFresh(strings.TrimSuffix(out, "end\n")); err == nil {
+		t.Fatal("incomplete child output accepted")
+	}
+}
+
+// The in-process half of the spellings oracle on the implementation, and on an implementation
+// with a memo keyed by the text after the last slash that is filled by whichever File comes
+// first in a run (visible here because the memo is reset per run; in a real process only a
+// fresh process can show it).
+func TestC09SpellOracle(t *testing.T) {
+	sets := C09SpellSets(5, "quick")[:40]
+	nt := 0
+	for i, c := range sets {
+		c09SpellMeasure(c)
+		if c.NonTrivial {
+			nt++
+		}
+		got := c09Exec(c.Hist)
+		if d := (c09{}).Oracle(c, got); d != "" {
+			t.Fatalf("set %d rejected: %s\n%s", i, d, c.Hist.Sexp())
+		}
+		if d := (c09{}).Compare(c, got, got); d != "" {
+			t.Fatal(d)
+		}
+	}
+	if nt < 30 {
+		t.Errorf("only %d of 40 sets are non-trivial", nt)
+	}
+	defer func(f func(hist.History) []hist.Obs) { c09Exec = f }(c09Exec)
+	real := c09Exec
+	c09Exec = func(h hist.History) []hist.Obs {
+		obs := real(h)
+		memo := "" // alias of the first trailing-slash path of this run
+		for _, op := range h {
+			if op.Kind != "fadd" {
+				continue
+			}
+			var walk func(n term.Node)
+			walk = func(n term.Node) {
+				switch x := n.(type) {
+				case *term.Stmt:
+					for _, it := range x.Items {
+						walk(it)
+					}
+				case *term.Group:
+					if x.Method == "Qual" && strings.HasSuffix(x.Path, "/") && memo == "" {
+						p := strings.TrimRight(x.Path, "/")
+						memo = p[strings.LastIndex(p, "/")+1:]
+					}
+					for _, it := range x.Items {
+						walk(it)
+					}
+				}
+			}
+			walk(op.Code)
+		}
+		if memo != "" {
+			for i := range obs {
+				obs[i].Out = strings.ReplaceAll(obs[i].Out, "beta", memo)
+			}
+		}
+		return obs
+	}
+	caught := 0
+	for _, c := range sets {
+		if (c09{}).Oracle(c, c09Exec(c.Hist)) != "" {
+			caught++
+		}
+	}
+	if caught == 0 {
+		t.Errorf("a memo shared between the Files of one run is never caught")
 	}
 }
